@@ -20,7 +20,7 @@ RULE = (
     "rank owns a block, history of 3-8 steps with presence masks). Non-trivial = world size >= 2, group size >= 2 and >= 1 refresh step. Starving masks "
     "(open finding F5) are repaired and counted as excluded; F6-signature process-group mismatches are counted as excluded. Distinct = canonical JSON."
 )
-BOUNDS = "W <= 4 (quick) / 8 (thorough), <= 6 parameters, numel <= 120, <= 8 steps; thread backend, CPU"
+BOUNDS = "W <= 4 (quick) / 8 (thorough), <= 6 parameters, numel <= 120 (big_buffers: one block of 1030x1030 .. 2047x1025, warm-up only), <= 8 steps; thread backend, CPU"
 ASSUMPTIONS = [
     "ranks share no mutable state and interact only through collectives, so matching collective sequences (T1) and collective group creation (T2) imply timing independence (DESIGN 5.4)",
     "torch.testing._internal.distributed.multi_threaded_pg provides faithful process-group / DeviceMesh / DTensor bookkeeping",
